@@ -88,6 +88,8 @@ def main(argv=None):
         for h in K.discover(suite):
             if prop not in h["ids"]:
                 continue
+            if h["tier"] not in ("quick", "thorough"):
+                continue                      # "reference" harnesses are kept in the sources but not registered
             if args.tier == "quick" and h["tier"] != "quick":
                 continue
             if args.only and args.only not in h["name"]:
